@@ -225,3 +225,120 @@ Example C15_d15_history_nonvacuous :
    t_live (tr_t2 tr) 1 = Some (mkObj 1 1 Error 3 1, 4) /\
    map (fun it => (ri_obj it, ri_rev it, ri_orig it)) (q_items (tr_q4 tr)) = [(mkObj 1 1 Error 3 1, 4, 1)]).
 Proof. exact d15_trace. Qed.
+
+(* ------------------------------------------------------------------ the refresher (Reconciler/Refresh.v) *)
+From SV Require Import Reconciler.ItemsInv Reconciler.Refresh.
+
+(* reconciler.go refreshLoop marks old Done objects for re-reconciliation. In the model (Model.v) a refresh
+   is the ATOMIC user write `ref` (do_write kind 5). The code is a concurrent loop: it reads (o, rev) from a
+   READ snapshot `snap`, later opens a write transaction, re-reads the object and writes the re-read object
+   with StatusRefreshing() only `if ok && rev == newRev` — `refresh_write t o rev` on the table t the write
+   transaction sees. `tstep snap t`: t is reached from snap by ANY committed writes (inserts of any object —
+   user writes, foreign status writes, the reconciler's status commits —, deletes, id draws).
+   NOT MODELLED: the refresher's TIMING — which objects it picks and when (UpdatedAt vs RefreshInterval, the
+   rate limiter, the lastRevision cursor): (o, rev) is any Done object of any earlier snapshot. On the
+   implementation side the refresher is exercised by a directed probe only (no randomized schedule runs the
+   refresh loop against concurrent writers). *)
+
+(* (a)+(b): if the key's slot is as it was in the snapshot, the refresher's write is exactly what the model's
+   atomic `ref` write does to the current table; if anything was written to the key meanwhile (larger
+   revision) or the object was deleted, nothing is written *)
+Theorem C15_refresher_write_is_ref_or_nothing : forall snap e o rev, twf snap -> tstep snap (e_tab e) ->
+  refresher_saw snap o rev ->
+  (slot_of (e_tab e) (o_pk o) = slot_of snap (o_pk o) /\
+   refresh_write (e_tab e) o rev = e_tab (do_write e 5 (o_pk o))) \/
+  (slot_of (e_tab e) (o_pk o) <> slot_of snap (o_pk o) /\
+   refresh_write (e_tab e) o rev = e_tab e).
+Proof. exact refresher_write_is_ref_or_nothing. Qed.
+Print Assumptions C15_refresher_write_is_ref_or_nothing.
+
+(* (c)+(d): the refresher's write changes nothing but a status — same statuses-erased table (payload version
+   and other writers' data of every live object, None for deleted ones), deleted/absent keys and all other
+   keys exactly as they were —; if it writes at all, the table still held the very object seen in the
+   snapshot at the snapshot's revision, a Done object, which becomes Refreshing with a fresh id; an object
+   that is Pending, Refreshing or Error (retry queued) is never overwritten *)
+Theorem C15_refresher_changes_only_status : forall snap t o rev, twf snap -> tstep snap t ->
+  refresher_saw snap o rev ->
+  (status_only t (refresh_write t o rev) /\
+   (forall k, k <> o_pk o -> slot_of (refresh_write t o rev) k = slot_of t k)) /\
+  (refresh_write t o rev <> t ->
+   t_live t (o_pk o) = Some (o, rev) /\ o_kind o = Done /\
+   t_live (refresh_write t o rev) (o_pk o) = Some (with_status o Refreshing (t_nextid t), t_rev t + 1)) /\
+  (forall cur r, t_live t (o_pk o) = Some (cur, r) -> o_kind cur <> Done -> refresh_write t o rev = t).
+Proof. exact refresher_changes_only_status. Qed.
+Print Assumptions C15_refresher_changes_only_status.
+
+(* the status-only part needs no snapshot at all: whatever (o, rev) the refresher holds *)
+Theorem C15_refresher_write_status_only : forall t o rev, keyed t ->
+  status_only t (refresh_write t o rev) /\
+  (forall k, k <> o_pk o -> slot_of (refresh_write t o rev) k = slot_of t k).
+Proof. exact refresh_write_status_only. Qed.
+Print Assumptions C15_refresher_write_status_only.
+
+(* in every reachable state: an object with an update retry item is not touched by the refresher (it carries
+   our Error status, or is Pending/Refreshing/deleted ahead of the change cursor) — the retry keeps its
+   backoff (C16) *)
+Theorem C15_refresher_leaves_queued_retries_alone : forall cf e s snap o rev it, reach cf (e, s) ->
+  twf snap -> tstep snap (e_tab e) -> refresher_saw snap o rev ->
+  In it (q_items (k_ret s)) -> ri_del it = false -> ri_pk it = o_pk o ->
+  refresh_write (e_tab e) o rev = e_tab e.
+Proof. exact refresher_leaves_queued_retries_alone. Qed.
+Print Assumptions C15_refresher_leaves_queued_retries_alone.
+
+(* composition with runs: snapshot in any reachable state st, write transaction in any later state st' of the
+   run (environment steps and rounds in between): the write is the model's `ref` environment step at st' —
+   the result is again a reachable state, so every invariant proved over `reach` covers the concurrent
+   refresher — or nothing *)
+Theorem C15_refresher_in_runs : forall cf st st' o rev, reach cf st -> later cf st st' ->
+  refresher_saw (e_tab (fst st)) o rev ->
+  (t_live (e_tab (fst st')) (o_pk o) = Some (o, rev) /\
+   refresh_write (e_tab (fst st')) o rev = e_tab (do_write (fst st') 5 (o_pk o)) /\
+   reach cf (do_write (fst st') 5 (o_pk o), snd st')) \/
+  (slot_of (e_tab (fst st')) (o_pk o) <> slot_of (e_tab (fst st)) (o_pk o) /\
+   refresh_write (e_tab (fst st')) o rev = e_tab (fst st')).
+Proof. exact refresher_in_runs. Qed.
+Print Assumptions C15_refresher_in_runs.
+
+(* seeded variant A (revision check on a READ transaction before WriteTxn, then the OLD object + Refreshing is
+   inserted unconditionally): reverts a committed user update (payload version 2 -> 1) and re-creates a
+   deleted object; the code as it is writes nothing in both situations *)
+Theorem C15_refresher_stale_check_refuted :
+  refresher_saw rf_snap rf_o rf_rev /\
+  (erase rf_upd = [(1, Some (2, 0))] /\
+   erase (refresh_write_stale rf_snap rf_upd rf_o rf_rev) = [(1, Some (1, 0))] /\
+   refresh_write rf_upd rf_o rf_rev = rf_upd) /\
+  (erase rf_del = [(1, None)] /\
+   erase (refresh_write_stale rf_snap rf_del rf_o rf_rev) = [(1, Some (1, 0))] /\
+   refresh_write rf_del rf_o rf_rev = rf_del).
+Proof. exact refresh_stale_check_refuted. Qed.
+Print Assumptions C15_refresher_stale_check_refuted.
+
+(* seeded variant B (`if ok`, no revision comparison): at time 20 the object is Error with a retry item queued
+   for time 60 (numRetries 2); the variant overwrites Error with Refreshing, Update is called again at time
+   20 and, failing, is re-queued for time 40 with numRetries 1 (backoff reset); the code as it is writes
+   nothing, calls nothing (up to time 39) and keeps the item *)
+Theorem C15_refresher_no_revision_check_refuted :
+  refresher_saw rf_snap rf_o rf_rev /\
+  t_live rf_err 1 = Some (mkObj 1 2 Error 5 0, 5) /\
+  e_now (fst rf_st1) = 20 /\ items_of (snd rf_st1) = [(1, 60, 2)] /\
+  t_live (refresh_write_nocheck rf_err rf_o) 1 = Some (mkObj 1 2 Refreshing 6 0, 6) /\
+  refresh_write rf_err rf_o rf_rev = rf_err /\
+  calls_of (fst (rf_next rf_err)) = [] /\ items_of (snd (rf_next rf_err)) = [(1, 60, 2)] /\
+  calls_of (fst (rf_next (refresh_write_nocheck rf_err rf_o))) = [(20, 0, 1, false)] /\
+  items_of (snd (rf_next (refresh_write_nocheck rf_err rf_o))) = [(1, 40, 1)].
+Proof. exact refresh_no_revision_check_refuted. Qed.
+Print Assumptions C15_refresher_no_revision_check_refuted.
+
+(* non-vacuity: the snapshot (key 1, payload 1, Done at revision 2) of a reachable state and the tables after
+   a user update / a delete; after an unrelated write the refresher's write IS the ref write (key 1 becomes
+   Refreshing); a later reachable state with an Error object and a queued update retry for key 1 *)
+Example C15_refresher_nonvacuous :
+  (refresher_saw rf_snap rf_o rf_rev /\ twf rf_snap /\ tstep rf_snap rf_upd /\ tstep rf_snap rf_del) /\
+  ((let e := do_write (fst rf_st0) 0 2 in
+    tstep rf_snap (e_tab e) /\ slot_of (e_tab e) 1 = slot_of rf_snap 1 /\
+    live_objs (refresh_write (e_tab e) rf_o rf_rev) = [(1, 1, 1); (2, 2, 0)] /\
+    refresh_write (e_tab e) rf_o rf_rev <> e_tab e) /\
+   slot_of rf_upd 1 <> slot_of rf_snap 1 /\ slot_of rf_del 1 <> slot_of rf_snap 1) /\
+  (reach rf_cf rf_st0 /\ later rf_cf rf_st0 rf_st1 /\ reach rf_cf rf_st1 /\ tstep rf_snap rf_err /\ err_live rf_err 1 /\
+   (exists it, In it (q_items (k_ret (snd rf_st1))) /\ ri_del it = false /\ ri_pk it = o_pk rf_o /\ ri_inq it = true)).
+Proof. exact (conj rf_saw (conj rf_unchanged_and_changed rf_retry_state)). Qed.
